@@ -15,7 +15,14 @@ pub fn run(ctx: &mut Ctx) -> R {
     let mut cfg = draw_cfg(&ch, true);
     cfg.block = 16 + ch.draw("c14.block", 80) as u16;
     cfg.padding = *ch.pick("c14.pad", &[Some(8u32), None, Some(100), Some(40), Some(4096)]);
-    let frames = draw_len(&ch, &cfg, 4);
+    let mut frames = draw_len(&ch, &cfg, 4);
+    // sometimes many short frames: whatever the encoder does every n-th frame happens before the crash
+    if ch.draw("c14.many", 6) == 5 {
+        cfg.block = 16;
+        cfg.channels = cfg.channels.min(2);
+        frames = 16 * (33 + ch.draw("c14.many.n", 48) as usize) + ch.draw("c14.many.rem", 16) as usize;
+        probe("c14_more_than_32_frames");
+    }
     let pcm = draw_pcm(&ch, cfg.channels, cfg.bps, frames);
     let kind = draw_wkind(&ch);
     let chunks = draw_write_chunks(&ch, kind, &pcm);
